@@ -44,6 +44,7 @@ def norm(spec):
     s.setdefault("err", "default")
     s.setdefault("layout", "grouped")
     s.setdefault("cap_alias", False)
+    s.setdefault("sibling_contract", False)  # pset/pdel: the (otherwise bare) getter of the same property carries contracts
     s.setdefault("explicit_enabled", False)  # add enabled=True to every contract decorator (C15: interpreter modes)
     s.setdefault("foreign", None)  # a foreign functools.wraps decorator on the leaf: None|top|mid|bottom
     s.setdefault("post_old", "all")  # do postcondition *conditions* ask for OLD ("all") or only the error factories ("none")
@@ -101,6 +102,9 @@ def lam(role, name, a, result=None, OLD=None):
     else:
         LOG.append(("post", name, result is CUR.get("R"), _same(a), _content(a), _old(OLD)))
     return _truth(name)
+def sib(role):
+    LOG.append(("sibling", role))
+    return _truth("sibling")
 def _old(OLD):
     if OLD is None:
         return None
@@ -272,6 +276,8 @@ def render(spec):
             body_any = True
             qn = "L{}".format(li)
             ind = "    "
+            sib_decos = ("    @icontract.require(lambda self: sib('pre'))\n    @icontract.ensure(lambda self, result: sib('post'))\n"
+                         if spec["sibling_contract"] else "")
             def std_body(head):
                 w("    {} {}:\n".format(adef, head))
                 if spec["is_async"]:
@@ -293,12 +299,12 @@ def render(spec):
                 w("    @property\n" + deco_lines(li, ind))
                 w("    def p(self):\n        LOG.append(('body', '{}', _same(self)))\n        return _finish_body(self)\n".format(qn))
             elif kind == "pset":
-                w("    @property\n    def p(self):\n        return 1\n")
+                w("    @property\n" + sib_decos + "    def p(self):\n        return 1\n")
                 w("    @p.setter\n" + deco_lines(li, ind))
                 w("    def p(self, value):\n        LOG.append(('body', '{}', _same(value)))\n".format(qn))
                 w("        if BODY['mut'] == 'rebind':\n            value = [99]\n        return _finish_body(value)\n")
             elif kind == "pdel":
-                w("    @property\n    def p(self):\n        return 1\n")
+                w("    @property\n" + sib_decos + "    def p(self):\n        return 1\n")
                 w("    @p.deleter\n" + deco_lines(li, ind))
                 w("    def p(self):\n        LOG.append(('body', '{}', _same(self)))\n        return _finish_body(self)\n".format(qn))
             elif kind == "init":
@@ -644,7 +650,7 @@ def feat(spec, shape="-", body_mode="-", mut="-"):
         "inv_on": "/".join(lv["inv_on"] for lv in spec["levels"]),
         "defines": "/".join("1" if lv["defines"] else "0" for lv in spec["levels"]),
         "style": spec["style"], "err": spec["err"], "layout": spec["layout"], "cap_alias": spec["cap_alias"],
-        "post_old": spec["post_old"], "foreign": spec["foreign"],
+        "post_old": spec["post_old"], "foreign": spec["foreign"], "sibling_contract": spec["sibling_contract"],
         "shape": shape, "body": body_mode, "mut": mut,
     }
 
